@@ -436,6 +436,10 @@ def o_C09(ctx):
             r = expected_events(c)
             if not r["ok"] and tuple(r["err"]) == (5,) and got != ("err", 5):
                 v.append(([c.id], "%s: Break at breakable callback #%d must win over what follows, got %s" % (c.entry, i, "Ok" if got == ("ok",) else err_name(got[1:]))))
+    # the same policy through self_visit of the parsed object
+    for s, c, t in parser_cases(ctx, ("struct", "small")):
+        if c.brk >= 0 and first(t, "x_selfbrk") == "0":
+            v.append(([c.id], "%s: self_visit of the parsed object under the policy 'break at #%d' does not end like visiting its bytes (result or callbacks differ: a Break must be reported as VisitBreak with nothing after it)" % (c.entry, c.brk)))
     # every other case run under a breaking policy (truncated inputs, small strings): judged by the reference
     for s, c, t in parser_cases(ctx, ("struct", "small")):
         if c.brk < 0 or c.entry not in VISIT or (".b" in c.id):
@@ -715,6 +719,8 @@ def cache_oracles(ctx, prop):
                     if prop == "C13":
                         present = k in retr_before
                         toolarge = len(val) > tr.cap
+                        if present and r[0] != "2":
+                            bad.append("insert of retrievable key %d (value of %d bytes, capacity %d) fails with ValueLargerThanBuffer, not ValueAlreadyPresent" % (k, len(val), tr.cap))
                         if r[0] == "2" and not present:
                             bad.append("ValueAlreadyPresent for key %d which is not retrievable" % k)
                         if r[0] == "1" and not toolarge:
